@@ -140,6 +140,16 @@ def eval_expr(ast, result, ctx):
     k = ast[0]
     if k == "lit":
         return ast[1]
+    if k == "raw" and isinstance(ast[1], dict):
+        out = {}
+        for kk, vv in ast[1].items():
+            if not isinstance(kk, str) or _contains_expr(kk):
+                return UNKNOWN
+            val = eval_expr(parse_expr(vv), result, ctx)
+            if val == UNKNOWN:
+                return UNKNOWN
+            out[kk] = val
+        return out
     if k == "res":
         return result
     if k == "ctx":
